@@ -474,3 +474,32 @@ func TestF22_SelfReferentialPointerType(t *testing.T) {
 		t.Fatal("NewFunc(func(P)) with type P *P did not return")
 	}
 }
+
+// F23 (C15): NewValueSet built sets that did not contain the values they were built from.
+func TestF23_NewValueSetUnrepresentable(t *testing.T) {
+	it := reflect.TypeOf(0)
+	// representable once the tag is quoted
+	for _, st := range []string{`a"b`, `a\b`} {
+		vs, err := am.NewValueSet([]am.Value{{Type: it, Subtype: st}})
+		if err != nil {
+			t.Fatalf("subtype %q: %v", st, err)
+		}
+		if v := vs.TypedSubtype(it, st); v == nil {
+			t.Fatalf("subtype %q is not reported back: %v", st, vs.Values())
+		}
+	}
+	// not representable: an error, not a different set and not a panic
+	for _, v := range []am.Value{{Type: it, Subtype: "a,b"}, {Name: "ı", Type: it}, {Name: "1a", Type: it}, {Name: "_a", Type: it}} {
+		func() {
+			defer func() {
+				if p := recover(); p != nil {
+					t.Errorf("%v: panic %v", v, p)
+				}
+			}()
+			vs, err := am.NewValueSet([]am.Value{v})
+			if err == nil {
+				t.Errorf("%q/%q accepted, reported back as %v", v.Name, v.Subtype, vs.Values())
+			}
+		}()
+	}
+}
